@@ -7,6 +7,9 @@
 //   probe <id> <writer id> until=<off>            passive + Unchecked input, wakes itself every cycle, logs the full view
 //   cons <id> <writer id> [every=<n>]             active Unchecked consumer; with every=n it reads its input only on each n-th tick
 //   mirror <id> <writer id>                       out = apply_delta(capture_delta(in)); cons/probe may attach to a mirror id
+//   towin <id> <TS writer id> kind=tick|dur period=<n> min=<n> [reset=<SIGNAL writer id>]
+//                                                  stdlib::to_window over a scripted TS<Int> (tick-count or duration window, resettable);
+//                                                  probe/cons attach to <id> (shape WIN: a runtime window schema)
 //   record <key> <producer id>                    stdlib dense record into GlobalState[key]
 //   replay <id> shape=<S> key=<key>               stdlib replay source
 //   runs 2                                        second run: fresh executor whose builder GlobalState is seeded with run 1's
@@ -16,6 +19,7 @@
 #include <hgraph/lib/testing/record_replay_buffer.h>
 #include <hgraph/types/time_series/ts_delta.h>
 #include <hgraph/types/value/json_codec.h>
+#include <hgraph/lib/std/std_operators.h>
 
 namespace hv
 {
@@ -86,6 +90,7 @@ namespace hv
         template <typename Fn>
         void with_shape(const std::string &shape, Wiring &w, const WiringPortRef &ref, Fn &&fn)
         {
+            if (shape == "WIN") { fn(Port<void>{w, ref}); return; }     // runtime window schema (stdlib::to_window)
 #define HV_X(NAME, ...) if (shape == NAME) { fn(Port<__VA_ARGS__>{w, ref}); return; }
             HV_SHAPES(HV_X)
 #undef HV_X
@@ -127,6 +132,26 @@ namespace hv
                         long long id = std::stoll(st.tok.at(1));
                         shapes[id]   = st.get("shape");
                         ports[id]    = make_replay(w, st.get("shape"), st.get("key"));
+                    }
+                    else if (k == "towin")
+                    {
+                        long long id  = std::stoll(st.tok.at(1));
+                        long long src = std::stoll(st.tok.at(2));
+                        Port<TS<Int>> ts{w, ports.at(src)};
+                        const bool dur = st.get("kind", "tick") == "dur";
+                        const long long period = st.geti("period", 3), mn = st.geti("min", 1);
+                        WiringPortRef out;
+                        if (st.has("reset"))
+                        {
+                            Port<SIGNAL> reset{w, ports.at(st.geti("reset"))};
+                            out = dur ? wire<stdlib::to_window>(w, ts, MIN_TD * static_cast<int64_t>(period), MIN_TD * static_cast<int64_t>(mn), reset).erased()
+                                      : wire<stdlib::to_window>(w, ts, Int{period}, Int{mn}, reset).erased();
+                        }
+                        else
+                            out = dur ? wire<stdlib::to_window>(w, ts, MIN_TD * static_cast<int64_t>(period), MIN_TD * static_cast<int64_t>(mn)).erased()
+                                      : wire<stdlib::to_window>(w, ts, Int{period}, Int{mn}).erased();
+                        ports[id]  = out;
+                        shapes[id] = "WIN";
                     }
                     else if (k == "probe" || k == "cons" || k == "mirror" || k == "record")
                     {
